@@ -213,6 +213,12 @@ def oracle_append(c, r):
             return Failure(dict(sig, clause="entries"), f"tier {t['name']!r}: {t['es']} expected {exp}")
         if a and t["es"][:len(a["es"])] != [list(e) for e in a["es"]]:
             return Failure(dict(sig, clause="first-operand-unchanged"), f"tier {t['name']!r}: A's entries changed")
+    # "a span ending at the sum of both end times": every tier of the result shares the result's span
+    for t in res["tiers"]:
+        if not (t["lo"] == res["lo"] and T.close(t["hi"], res["hi"])):
+            only_a = t["name"] in gn and t["name"] not in hn
+            return Failure(dict(sig, clause="tier-span", only_in_first=only_a),
+                           f"tier {t['name']!r} spans [{t['lo']},{t['hi']}] inside a textgrid spanning [{res['lo']},{res['hi']}]")
     return None
 
 
